@@ -110,7 +110,8 @@ pub fn gen_base(rng: &mut Rng, cfg: &BaseCfg) -> (J, StdTable, Sel, Shape) {
                 s = Sel { from: "t".into(), group_by: Some(vec![col("k")]), ..Default::default() };
                 s.projs = vec![(col("k"), None), (E::Agg("stddev".into(), false, vec![col("i")]), None), (E::Agg("variance".into(), false, vec![col("i")]), Some("v".into())), (E::Agg("avg".into(), false, vec![col("i")]), None), (E::Agg("sum".into(), false, vec![col("i")]), None), (E::Agg("count".into(), false, vec![E::Star]), None)];
             }
-            if ulp_reals && t.schema.ty_of("r").is_some() && rng.chance(1, 2) { crate::gen::rekey(&mut s, "r"); }
+            // (not in the bit-for-bit cases: which of -0.0 / 0.0 represents a REAL key depends on the order of arrival)
+            if ulp_reals && !mid_ints && t.schema.ty_of("r").is_some() && rng.chance(1, 2) { crate::gen::rekey(&mut s, "r"); }
             if big_ints || big_rows {
                 let risky = |s: &Sel| crate::gen::big_int_risky(s);
                 for _ in 0..20 { if !risky(&s) { break; } s = gen_aggregate(rng, &t.schema, &acfg); }
